@@ -21,13 +21,14 @@ SEED = int(os.environ.get("VERIF_SEED", "0") or 0)
 class Model:
     def __init__(self, threads, switches, timeout_ms=20000):
         self.threads, self.P = threads, switches
-        self.solver = z3.Solver()
+        self.ctx = z3.Context()                 # fresh context: the answers do not depend on what the process solved before
+        self.solver = z3.Solver(ctx=self.ctx)
         self.solver.set("timeout", timeout_ms)
         self.solver.set("random_seed", SEED)
         self.queries, self.solver_s, self.unknown = 0, 0.0, 0
         T = len(threads)
-        self.S = [[z3.Int(f"seg_{t}_{k}") for k in range(len(steps))] for t, steps in enumerate(threads)]
-        self.owner = [z3.Int(f"owner_{j}") for j in range(switches + 1)]
+        self.S = [[z3.Int(f"seg_{t}_{k}", self.ctx) for k in range(len(steps))] for t, steps in enumerate(threads)]
+        self.owner = [z3.Int(f"owner_{j}", self.ctx) for j in range(switches + 1)]
         add = self.solver.add
         for j, o in enumerate(self.owner):
             add(o >= 0, o < T)
